@@ -266,5 +266,45 @@ def oracles(ctx, deep):
                         m = r[1]
                         if m.dtype != torch.bool or list(m.shape)[-3:-1] != list(shape)[-3:-1]:
                             add(Violation("geometry", "%s (%s): a reused generator returns %s of shape %s for k-space shape %s" % (name, mode, which, list(m.shape), shape), {"config": cfgd, "which": which}, {"generator": name, "kind": "geometry-reuse"}))
+    # how the configuration layer builds generators: the mode as a string in any spelling (DirectEnum compares
+    # case-insensitively), and the builder's default mode, which the k-t generators (always per-frame) do not take
+    from direct.common.subsample import build_masking_function
+
+    for name in G.ALL:
+        for rep in range(ctx.n(1, 3)):
+            cfg0 = None
+            for _ in range(80):
+                c_ = G.random_config(rng, names=[name], ranks=(5,), small=True)
+                if len(c_[2]) == 5 and c_[2][1] > 1 and (c_[4] == 0 or G.feasible(name, c_[2], c_[3], c_[4])):
+                    cfg0 = c_
+                    break
+            if cfg0 is None:
+                continue
+            shape, accel, cf = cfg0[2], cfg0[3], cfg0[4]
+            seed = rng.randrange(10**6)
+            spellings = [("dynamic", "DYNAMIC"), ("multislice", "Multislice"), ("dynamic", "Dynamic"), ("multislice", "MULTISLICE"), ("static", "STATIC")]
+            if name in G.KT:
+                spellings = [("dynamic", "DYNAMIC"), ("dynamic", "<builder default>"), ("dynamic", "static")]
+            for canon, spelled in spellings:
+                runs += 1
+                cfgd = {"generator": name, "mode_given_as": spelled, "shape": shape, "acceleration": accel, "center_fraction": cf, "seed": seed, "built_by": "build_masking_function"}
+                try:
+                    ref = G.build(name, accel, cf, canon)
+                    kw = {} if spelled == "<builder default>" else {"mode": spelled}
+                    mf = build_masking_function(name, accelerations=[accel], center_fractions=[cf], uniform_range=False, **kw)
+                except Exception as e:  # noqa
+                    add(Violation("generator-constructible", "%s cannot be built by build_masking_function with mode %r: %s" % (name, spelled, str(e)[:100]), {"config": cfgd}, {"generator": name, "kind": "build-spelling"}))
+                    continue
+                for which, acs in (("mask", False), ("acs", True)):
+                    r0 = G.call(ref, shape, seed, acs, seconds=8)
+                    r1 = G.call(mf, shape, seed, acs, seconds=8)
+                    if r0[0] != "ok":
+                        continue
+                    if r1[0] == "hang":
+                        add(Violation("returns", "%s built with mode %r did not return within 8 s for shape %s (%s)" % (name, spelled, shape, which), {"config": cfgd, "which": which}, {"generator": name, "kind": "hang-spelling"}))
+                    elif r1[0] == "raises":
+                        add(Violation("documented-error", "%s built by build_masking_function with mode %r raises %s: %s for shape %s (%s); with the enum member %s it returns a mask" % (name, spelled, r1[1], r1[2], shape, which, canon), {"config": cfgd, "which": which}, {"generator": name, "kind": "raises-spelling", "exception": r1[1]}))
+                    elif list(r1[1].shape) != list(r0[1].shape) or r1[1].dtype != torch.bool:
+                        add(Violation("geometry", "%s built by build_masking_function with mode %r: %s has shape %s; with the enum member %s it has the documented shape %s (k-space shape %s)" % (name, spelled, which, list(r1[1].shape), canon, list(r0[1].shape), shape), {"config": cfgd, "which": which, "observed_shape": list(r1[1].shape), "expected_shape": list(r0[1].shape)}, {"generator": name, "kind": "geometry-spelling"}))
     ctx.oracle_runs = runs
     return out
